@@ -170,8 +170,10 @@ def gen_scenarios(prop, module, cfg, deps, consts=None, workers=4, timeout=1800,
     hists = extract_tagged(out, tag)
     scen = [{"id": "%s-%s-%06d" % (prop, module, i), "steps": h} for i, h in enumerate(hists)]
     stats = {"states_generated": gen, "distinct_states": dist, "mc_ok": ok, "wall": round(time.time() - t0, 1)}
-    with open(cpath, "w") as fh:
+    tmp = "%s.%d.tmp" % (cpath, os.getpid())          # atomic: checks that share a model may run concurrently
+    with open(tmp, "w") as fh:
         json.dump({"scenarios": scen, "stats": stats}, fh)
+    os.replace(tmp, cpath)
     return scen, stats
 
 
